@@ -11,6 +11,7 @@ import (
 	"os"
 	"reflect"
 	"runtime"
+	"strconv"
 	"strings"
 	"sync"
 	"sync/atomic"
@@ -441,7 +442,57 @@ drain:
 
 // serveStress: real goroutines hammer router shapes drawn from the seed (built with -race by the check); every request's
 // log/params/body is compared with its solo prediction and written as a trace line for TLC (spec/trace/TraceServe.tla).
+// serveColdStarts: the very first requests of a fresh router arrive together (what a router sets up on first use - a
+// fallback chain, a cache, a compiled pattern - is set up by several requests at once): many fresh routers, four first
+// requests each, released by a barrier; judged by the race detector and by the answers
+func serveColdStarts(s *Summary, rounds int) {
+	for t := 0; t < rounds; t++ {
+		opts := []func(*rux.Router){rux.HandleMethodNotAllowed}
+		if t%2 == 0 {
+			opts = append(opts, cachingOpts(1+t%3)...)
+		}
+		r := newRouter(opts...)
+		if t%3 != 0 {
+			r.Use(nopHandler)
+		}
+		r.GET("/b/{id}", func(c *rux.Context) { c.Text(200, "b:"+c.Param("id")) })
+		r.POST("/onlypost", nopHandler)
+		reqs := [][3]string{{"GET", "/missing", "404"}, {"GET", "/missing2", "404"}, {"GET", "/onlypost", "405"}, {"PUT", "/onlypost", "405"}, {"GET", "/b/1", "b:1"}, {"GET", "/b/2", "b:2"}}
+		start := make(chan struct{})
+		var wg sync.WaitGroup
+		var mu sync.Mutex
+		for i := 0; i < 4; i++ {
+			rq := reqs[(t+i*(1+t%2))%len(reqs)]
+			wg.Add(1)
+			go func(rq [3]string) {
+				defer wg.Done()
+				<-start
+				w := httptest.NewRecorder()
+				var pan any
+				func() {
+					defer func() { pan = recover() }()
+					r.ServeHTTP(w, &http.Request{Method: rq[0], URL: &url.URL{Path: rq[1]}, Header: http.Header{}, Proto: "HTTP/1.1"})
+				}()
+				got := w.Body.String()
+				if w.Code != 200 {
+					got = strconv.Itoa(w.Code)
+				}
+				if pan != nil || got != rq[2] {
+					mu.Lock()
+					s.mismatch(map[string]any{"kind": "serve", "aspect": "interference", "what": fmt.Sprintf(
+						"one of the four first requests of a fresh router: %s %s answered %q (panic %v), alone it is answered %q", rq[0], rq[1], got, pan, rq[2])}, nil)
+					mu.Unlock()
+				}
+			}(rq)
+		}
+		close(start)
+		wg.Wait()
+		s.Compared += 4
+	}
+}
+
 func serveStress(s *Summary, rng *rand.Rand, n int, out *traceWriter) {
+	serveColdStarts(s, 60)
 	shapes := [][4]int{{3, 4, 0, 0}, {3, 3, 1, 1}, {0, 0, 3, 4}, {2, 2, 5, 6}, {5, 8, 2, 2}, {1, 1, 0, 0}, {3, 4, 3, 4}, {0, 0, 0, 0}}
 	for t := 0; t < n; t++ {
 		sh := shapes[(t+rng.Intn(len(shapes)))%len(shapes)]
@@ -497,6 +548,9 @@ func serveStress(s *Summary, rng *rand.Rand, n int, out *traceWriter) {
 			rl.log = append(rl.log, []any{"main", "o"})
 			c.Text(200, "main:"+rid+":")
 		})
+		// a later registered route of the same bucket that matches everything /b/{id} matches: it never wins, whatever else
+		// goes on (the read-only views of the route table - String(), Routes(), GetRoute() - are called while requests are served)
+		r.GET("/b/{aa:.+}", func(c *rux.Context) { c.Text(200, "shadowed route") })
 		// a route whose middleware puts a wrapper of its own in place of the response writer for ITS request (a tagging
 		// writer); the wrapper must not be there for any other request
 		r.GET("/w", func(c *rux.Context) {
@@ -536,6 +590,12 @@ func serveStress(s *Summary, rng *rand.Rand, n int, out *traceWriter) {
 				defer wg.Done()
 				for i := 0; i < per; i++ {
 					kind := kinds[wr.Intn(len(kinds))]
+					if wr.Intn(25) == 0 { // an admin page / a health check looks at the route table
+						_ = r.String()
+						_ = r.Routes()
+						_ = r.GetRoute("nothing")
+						_ = len(r.NamedRoutes())
+					}
 					id := fmt.Sprintf("w%d-%d", w, i)
 					if kind == "b" && wr.Intn(2) == 0 {
 						id = fmt.Sprintf("k%d", wr.Intn(3)) // repeated dynamic paths: cache hits
